@@ -524,6 +524,43 @@ Definition uc_response (nq : nat) (h : list dgram) : response :=
 Definition scan_unicast (lk : lookups) (wanted : list proto) (ids : list str) (hs : list (list dgram)) : list config :=
   scan_result lk wanted ids (map (uc_response (nqueries (scan_types wanted))) hs).
 
+(* ---------------------------------------------------------------- burst delivery
+
+   The definitions above stop at the point where the protocol closes its receivers / its
+   transport (a selector transport delivers nothing after close()).  A transport that has
+   already dequeued a batch of datagrams keeps calling datagram_received for the rest of the
+   batch before get_response() runs; the protocol objects do not look at their own "finished"
+   state, so they keep taking datagrams in.  The *_burst definitions are the same steps
+   without the closed check. *)
+
+(* unicast: every decodable datagram is added; the semaphore is released when the counter
+   passes through len(queries) *)
+Definition uc_step_burst (nq : nat) (st : ustate) (d : dgram) : ustate :=
+  match d with
+  | Garbage => st
+  | Msg recs =>
+      let c := S (ucount st) in
+      mkU c (add_message (uparser st) recs) (uclosed st || Nat.eqb c nq)
+  end.
+Definition uc_run_burst (nq : nat) (h : list dgram) : ustate := fold_left (uc_step_burst nq) h ustate0.
+Definition uc_response_burst (nq : nat) (h : list dgram) : response :=
+  let st := uc_run_burst nq h in
+  if uclosed st then let svcs := parse (uparser st) in mkResp svcs false (get_model svcs)
+  else mkResp [] false None.
+Definition scan_unicast_burst (lk : lookups) (wanted : list proto) (ids : list str) (hs : list (list dgram)) : list config :=
+  scan_result lk wanted ids (map (uc_response_burst (nqueries (scan_types wanted))) hs).
+
+(* multicast: after an abort ("replace everything found so far") the rest of the batch is
+   processed like any other datagram, and may abort again *)
+Definition mc_step_burst (types : list str) (ids : list str) (st : mstate) (sd : N * dgram) : mstate :=
+  mc_step types ids (mkM (qrs st) false) sd.
+Definition mc_run_burst (types : list str) (ids : list str) (h : list (N * dgram)) : mstate :=
+  fold_left (mc_step_burst types ids) h mstate0.
+Definition mc_responses_burst (types : list str) (ids : list str) (h : list (N * dgram)) : list response :=
+  map (fun sq => to_response (snd sq)) (qrs (mc_run_burst types ids h)).
+Definition scan_multicast_burst (lk : lookups) (wanted : list proto) (ids : list str) (h : list (N * dgram)) : list config :=
+  scan_result lk wanted ids (mc_responses_burst (scan_types wanted) ids h).
+
 (* ---------------------------------------------------------------- correspondence *)
 
 Definition ostr := option str.
@@ -552,7 +589,9 @@ Definition table_lk (tm : list (str * N)) (ti : list (str * N)) : lookups :=
                  | None => 0%N
                  end).
 
-Inductive history := HMulti (h : list (N * dgram)) | HUni (hs : list (list dgram)).
+Inductive history :=
+| HMulti (h : list (N * dgram)) | HUni (hs : list (list dgram))
+| HMultiBurst (h : list (N * dgram)) | HUniBurst (hs : list (list dgram)).
 
 Record case := mkCase
   { k_wanted : list proto; k_ids : list str; k_hist : history;
@@ -563,4 +602,6 @@ Definition check_case (tm ti : list (str * N)) (c : case) : bool :=
   match k_hist c with
   | HMulti h => list_beq oconfig_eqb (map observe (scan_multicast lk (k_wanted c) (k_ids c) h)) (k_out c)
   | HUni hs => list_beq oconfig_eqb (map observe (scan_unicast lk (k_wanted c) (k_ids c) hs)) (k_out c)
+  | HMultiBurst h => list_beq oconfig_eqb (map observe (scan_multicast_burst lk (k_wanted c) (k_ids c) h)) (k_out c)
+  | HUniBurst hs => list_beq oconfig_eqb (map observe (scan_unicast_burst lk (k_wanted c) (k_ids c) hs)) (k_out c)
   end.
